@@ -161,6 +161,9 @@ def relevant_functions(u, pid):
         by_name.setdefault(fn["emitted_as"], []).append(fn)
     rel = set()
     work = []
+    if pid == "C03":
+        # every contracted function carries implicit C03 obligations (overflow, bounds, unwrap, panic, termination)
+        return {fn["fn"] for fn in u["functions"]}
     tagged = {c["fn"] for c in u["clauses"] if pid in c["props"] or not c["props"]}
     for fn in u["functions"]:
         if fn["fn"] in tagged or pid in fn.get("props", []):
@@ -180,11 +183,11 @@ def relevant_functions(u, pid):
 def props_of_failure(f, fnmeta, unit_props):
     if f.get("props"):
         return f["props"]
+    if fnmeta and fnmeta.get("props"):
+        return fnmeta["props"]
     if f["kind"] in ("overflow", "divzero", "panic") or (f["kind"] == "pre" and not f.get("props")):
         p = ["C03"] if "C03" in unit_props else list(unit_props)
         return p
-    if fnmeta and fnmeta.get("props"):
-        return fnmeta["props"]
     return list(unit_props)
 
 
